@@ -78,11 +78,36 @@ theorem postingOpen_closing (st : PState σ) : ClosingOk (postingOpen E st).1.2.
   unfold postingOpen ClosingOk
   grind
 
+theorem lineComment_reachL {a st : PState σ} (h0 : ReachL E a st) : ReachL E a (lineComment E st).2 := by
+  unfold lineComment
+  grind [ReachL.adv]
+
+theorem postingClosing_reachL {cl} (hc : ClosingOk cl) {a st : PState σ} (h0 : ReachL E a st) :
+    ReachL E a (postingClosing E cl st) := by
+  unfold postingClosing
+  unfold ClosingOk at hc
+  grind [ReachL.adv]
+
+theorem postingAmount_reachL {a st : PState σ} (h0 : ReachL E a st) : ReachL E a (postingAmount E st).2 := by
+  unfold postingAmount
+  grind [parseAmount_reachL]
+
+theorem postingCost_reachL {a st : PState σ} (h0 : ReachL E a st) : ReachL E a (postingCost E st).2 := by
+  unfold postingCost
+  grind [parseCost_reachL]
+
+theorem postingAssertion_reachL {a st : PState σ} (h0 : ReachL E a st) : ReachL E a (postingAssertion E st).2 := by
+  unfold postingAssertion
+  grind [parseBalanceAssertion_reachL]
+
 theorem postingTail_reachL {cl} (hc : ClosingOk cl) {a st : PState σ} (h0 : ReachL E a st) :
     ReachL E a (postingTail E cl st).2 := by
   unfold postingTail
-  unfold ClosingOk at hc
-  grind [ReachL.adv, parseAmount_reachL, parseCost_reachL, parseBalanceAssertion_reachL]
+  have h1 := postingClosing_reachL E hc h0
+  have h2 := postingAmount_reachL E h1
+  have h3 := postingCost_reachL E h2
+  have h4 := postingAssertion_reachL E h3
+  exact lineComment_reachL E h4
 
 theorem txDescription_reachL {a st : PState σ} (h0 : ReachL E a st) : ReachL E a (txDescription E st).2 := by
   unfold txDescription
@@ -107,10 +132,6 @@ theorem txComment_reachL {a st : PState σ} (h0 : ReachL E a st) : ReachL E a (t
 theorem accountNameRest_reachL (nm) {a st : PState σ} (h0 : ReachL E a st) :
     ReachL E a (accountNameRest E nm st).2 := by
   unfold accountNameRest
-  grind [ReachL.adv]
-
-theorem lineComment_reachL {a st : PState σ} (h0 : ReachL E a st) : ReachL E a (lineComment E st).2 := by
-  unfold lineComment
   grind [ReachL.adv]
 
 theorem commodityInline_reachL {a st : PState σ} (h0 : ReachL E a st) : ReachL E a (commodityInline E st).2 := by
